@@ -135,9 +135,23 @@ class G:
                 fs += ["floor", "floor", "tan", "asin", "acos"]
             f = r.choice(fs)
             a, _ = self.var_expr(d - 1, avail)
-            if f == "exp" and d > 1:
-                # keep exponent arguments small in structure: exp of exp explodes the lemma instantiation
-                a, _ = self.var_expr(min(d - 1, 1), avail)
+            if f in ("abs", "Abs"):
+                # known finding C01|KNOWN:abs-exp-sqrt: sympy rewrites Abs(exp(u)) to exp(re(u)) - excluded construct
+                for _ in range(6):
+                    if "exp(" not in a:
+                        break
+                    a, _ = self.var_expr(d - 1, avail)
+                else:
+                    a = self.name(avail) if avail else "t"
+            if f == "exp":
+                # keep exponent arguments small in structure (exp of exp explodes the lemma instantiation) and in
+                # magnitude (exp(2.5E+4 + x) overflows doubles: sympy folds it to inf - outside every claim)
+                for _ in range(8):
+                    a, _ = self.var_expr(min(d - 1, 1), avail)
+                    if not any(big in a for big in ("2.5E+4", "1.5e3", "1e2", "100.0")):
+                        break
+                else:
+                    a = self.name(avail) if avail else "t"
             return f"{f}({a})", 4
         if k < 0.82 and prof == "full":
             a, _ = self.expr(d - 1, avail)
@@ -226,7 +240,13 @@ def program(i, profile="full", depth=3, components=True, odd_names=True, annotat
         avail = base + inters[:j]
         if j and r.random() < 0.5:
             avail = avail + inters[max(0, j - 2):j] * 2     # bias towards chains
-        e, _ = g.expr(r.choice([1, 2, depth]), avail)
+        # an intermediate is never a bare constant (known finding C01|KNOWN:const-zero-divisor: constant zero divisors)
+        e, _ = g.var_expr(r.choice([1, 2, depth]), avail) if (avail and r.random() < 0.9) else (g.lit(nonzero=True), 4)
+        if profile == "full" and r.random() < 0.06 and avail:
+            nm = [x for x in avail if x in states or x in params]
+            if len(nm) >= 2:   # a comparison used as a number (two different plain quantities: sympy cannot fold it)
+                a1, a2 = r.sample(nm, 2)
+                e = f"{e} + {r.choice(['2*', ''])}{r.choice(['Lt', 'Gt', 'Le', 'Ge'])}({a1}, {r.choice([a2, g.lit()])})"
         defs.append((n, e))
     live_inters = inters[:]
     if inters and r.random() < 0.3:
@@ -293,8 +313,15 @@ def program(i, profile="full", depth=3, components=True, odd_names=True, annotat
                      "hidden": sorted(hidden)}}
 
 
+# Programs of the universe that run into a recorded (not repaired) defect of gotranx.  They are left out of the generated
+# slices; each defect has a deterministic witness among the KNOWN models of vt/props/c01.py and an entry in known_findings.json.
+EXCLUDED = {
+    ("std", 3, 2172): "C01|KNOWN:trig-of-conditional-boundary",
+}
+
+
 def universe(n, profile="full", depth=3, start=0, **kw):
-    return [program(i, profile, depth, **kw) for i in range(start, start + n)]
+    return [program(i, profile, depth, **kw) for i in range(start, start + n) if (profile, depth, i) not in EXCLUDED]
 
 
 def pick(n_total, n, seed, profile="full", depth=3, **kw):
@@ -302,4 +329,10 @@ def pick(n_total, n, seed, profile="full", depth=3, **kw):
     idx = list(range(n_total))
     if n < n_total:
         idx = sorted(random.Random(f"pick/{seed}").sample(idx, n))
-    return [program(i, profile, depth, **kw) for i in idx]
+    return [program(i, profile, depth, **kw) for i in idx if (profile, depth, i) not in EXCLUDED]
+
+
+def programs(tier, seed, quick, thorough, profile="std", depth=3, **kw):
+    """The GEN slice of a check: `thorough` is the size of the (fixed) universe, the quick tier runs a seeded subset
+    of `quick` of exactly those programs - so everything quick can meet has been met by thorough."""
+    return pick(thorough, quick if tier == "quick" else thorough, seed, profile, depth, **kw)
